@@ -105,6 +105,7 @@ POOL = [
     ("DefaultDict", STR, INT), ("OrderedDict", STR, INT), ("Counter", STR), ("Deque", INT),
     # abstract spellings: their values are deliberately NOT of the concrete class a destination needs
     ("Mapping", STR, INT), ("MutableMapping", STR, INT), ("Sequence", INT), ("Iterable", INT),
+    ("Tuple",),         # the empty tuple type Tuple[()]
 ]
 # simplest first
 POOL_INDEX = {ts: i for i, ts in enumerate(POOL)}
